@@ -22,6 +22,17 @@ import (
 
 var Cancelled = errors.New("transaction cancelled")
 
+// States of the connect transaction: which client's packet the gateway is
+// waiting for. Packets which do not fit the current state are ignored.
+type connectState int
+
+const (
+	connectAwaitingAuth connectState = iota
+	connectAwaitingWillTopic
+	connectAwaitingWillMsg
+	connectAwaitingConnack
+)
+
 type connectTransaction struct {
 	*transactions.TimedTransaction
 	handler       *handler1
@@ -29,6 +40,7 @@ type connectTransaction struct {
 	authEnabled   bool
 	mqConnect     *mqPkts.ConnectPacket
 	authenticated bool
+	state         connectState
 }
 
 func newConnectTransaction(ctx context.Context, h *handler1, authEnabled bool, mqConnect *mqPkts.ConnectPacket) *connectTransaction {
@@ -69,18 +81,35 @@ func (t *connectTransaction) Start(ctx context.Context) error {
 
 	if t.authEnabled {
 		t.log.Debug("Waiting for AUTH packet.")
+		t.state = connectAwaitingAuth
 		return nil
 	}
 
+	return t.continueAfterAuth()
+}
+
+// Request the will, if the client has one, or send MQTT connect.
+func (t *connectTransaction) continueAfterAuth() error {
 	if t.mqConnect.WillFlag {
 		// Continue with WILLTOPICREQ.
+		t.state = connectAwaitingWillTopic
 		return t.handler.snSend(snPkts1.NewWillTopicReq())
 	}
 
+	// All information successfully gathered - send MQTT connect.
+	t.state = connectAwaitingConnack
 	return t.handler.mqttSend(t.mqConnect)
 }
 
 func (t *connectTransaction) Auth(snPkt *snPkts1.Auth) error {
+	// AUTH is used only if authentication is enabled and only once per
+	// CONNECT. Otherwise, the MQTT CONNECT has been (or will be) sent with
+	// the credentials already known.
+	if t.state != connectAwaitingAuth {
+		t.log.Debug("Unexpected packet in %d: %v", t.state, snPkt)
+		return nil
+	}
+
 	// Extract username and password from PLAIN data.
 	if snPkt.Method == snPkts1.AUTH_PLAIN {
 		user, password, err := snPkt.DecodePlain()
@@ -101,32 +130,54 @@ func (t *connectTransaction) Auth(snPkt *snPkts1.Auth) error {
 		return err
 	}
 
-	if t.mqConnect.WillFlag {
-		// Continue with WILLTOPICREQ.
-		return t.handler.snSend(snPkts1.NewWillTopicReq())
-	}
-
-	// All information successfully gathered - send MQTT connect.
-	return t.handler.mqttSend(t.mqConnect)
+	return t.continueAfterAuth()
 }
 
 func (t *connectTransaction) WillTopic(snWillTopic *snPkts1.WillTopic) error {
+	if t.state != connectAwaitingWillTopic {
+		t.log.Debug("Unexpected packet in %d: %v", t.state, snWillTopic)
+		return nil
+	}
+
+	// A will with an empty topic or QoS 3 cannot be passed to the MQTT
+	// broker.
+	if snWillTopic.WillTopic == "" || snWillTopic.QOS > 2 {
+		if err := t.SendConnack(snPkts1.RC_NOT_SUPPORTED); err != nil {
+			return err
+		}
+		err := fmt.Errorf("invalid will topic: %v", snWillTopic)
+		t.Fail(err)
+		return err
+	}
+
 	t.mqConnect.WillQos = snWillTopic.QOS
 	t.mqConnect.WillRetain = snWillTopic.Retain
 	t.mqConnect.WillTopic = snWillTopic.WillTopic
 
 	// Continue with WILLMSGREQ.
+	t.state = connectAwaitingWillMsg
 	return t.handler.snSend(snPkts1.NewWillMsgReq())
 }
 
 func (t *connectTransaction) WillMsg(snWillMsg *snPkts1.WillMsg) error {
+	if t.state != connectAwaitingWillMsg {
+		t.log.Debug("Unexpected packet in %d: %v", t.state, snWillMsg)
+		return nil
+	}
+
 	t.mqConnect.WillMessage = snWillMsg.WillMsg
 
 	// All information successfully gathered - send MQTT connect.
+	t.state = connectAwaitingConnack
 	return t.handler.mqttSend(t.mqConnect)
 }
 
 func (t *connectTransaction) Connack(mqConnack *mqPkts.ConnackPacket) error {
+	if t.state != connectAwaitingConnack {
+		t.log.Debug("Unexpected packet in %d: %v", t.state, mqConnack)
+		return nil
+	}
+
 	if mqConnack.ReturnCode != mqPkts.Accepted {
 		// We misuse RC_CONGESTION here because MQTT-SN spec v. 1.2 does not define
 		// any suitable return code.
